@@ -12,17 +12,22 @@ AllRoutes   == RouteL
 AllBackends == BackendL
 AllHosts    == HostL
 NoTlsProxyRoutes == {"direct", "tunnel_http"}
+DirectRoute == {"direct"}
+PinnedRoute == {"tunnel_https_pinned"}
 SmallHosts  == {"lower", "dot", "ipv4"}
-QuickHosts  == {"lower", "ipv4"}
+DnsHostOnly == {"lower"}
+IpHostOnly  == {"ipv4"}
+NoDefects   == {}
 
 \* backend x route as ONE factor so that the index space is a plain product (TLS-in-TLS does not
 \* exist for pyOpenSSL)
 Stacks == <<"ssl/direct", "ssl/tunnel_http", "pyopenssl/direct", "pyopenssl/tunnel_http",
-            "ssl/tunnel_https_good", "ssl/tunnel_https_bad">>
+            "ssl/tunnel_https_good", "ssl/tunnel_https_bad", "ssl/tunnel_https_pinned">>
 StackBackend(s) == IF s \in {"pyopenssl/direct", "pyopenssl/tunnel_http"} THEN "pyopenssl" ELSE "ssl"
 StackRoute(s) == CASE s \in {"ssl/direct", "pyopenssl/direct"} -> "direct"
                    [] s \in {"ssl/tunnel_http", "pyopenssl/tunnel_http"} -> "tunnel_http"
                    [] s = "ssl/tunnel_https_good" -> "tunnel_https_good"
+                   [] s = "ssl/tunnel_https_pinned" -> "tunnel_https_pinned"
                    [] OTHER -> "tunnel_https_bad"
 
 \* factor order and level order define the lattice index (mixed radix, first factor fastest)
@@ -31,7 +36,7 @@ Factors == <<
     [name |-> "ah",     levels |-> <<"unset", "False", "match", "mismatch">>],
     [name |-> "fp",     levels |-> <<"unset", "right", "wrong", "badlen">>],
     [name |-> "sh",     levels |-> <<"unset", "match", "mismatch">>],
-    [name |-> "ctx",    levels |-> <<"none", "default_like", "nocheck", "mode_none">>],
+    [name |-> "ctx",    levels |-> <<"none", "default_like", "nocheck", "mode_none", "urllib3_ctx">>],
     [name |-> "issuer", levels |-> <<"trusted", "untrusted">>],
     [name |-> "san",    levels |-> <<"exact", "wildcard", "mismatch", "ip_match", "ip_mismatch", "cn_only">>],
     [name |-> "host",   levels |-> <<"lower", "upper", "dot", "ipv4", "ipv6zone">>],
